@@ -23,6 +23,7 @@ KNOWN = Path(os.environ.get("VF_KNOWN_FILE") or ROOT / "KNOWN_FINDINGS.txt")
 REPO = Path(os.environ.get("VERIF_REPO", "/repo"))
 
 _workdirs: List[Path] = []
+PRINTED_VIOLATIONS = [0]      # VIOLATION lines printed by this process (see vf/main.py)
 
 
 def workdir(tag: str = "w") -> Path:
@@ -141,6 +142,7 @@ class Check:
         path.write_text(json.dumps({"property": self.pid, "key": key, "case": case, "detail": detail},
                                    indent=1, ensure_ascii=False, default=repr))
         print(f"VIOLATION property={self.pid} replay={path}", flush=True)
+        PRINTED_VIOLATIONS[0] += 1
 
     def finish(self) -> int:
         self.cov.setdefault("evaluations", self.evals)
